@@ -74,6 +74,11 @@ VerdictG(p, e, s) ==
                  \* filter of the builder's final key, P, M and entry set
                  ELSE IF ~e.builderr /\ e.nbytes # e.direct THEN V("builder-filter-bytes", Cut(e.direct), Cut(e.nbytes))
                  ELSE OK
+         \* one filter queried from several goroutines at once (a filter is immutable): every goroutine gets the answers a
+         \* single caller gets, and the filter's bytes do not change
+         [] e.op = "GcsConc" -> IF e.bytesbefore # e.bytesafter THEN V("gcs-filter-mutated-by-queries", 0, 1)
+                                ELSE IF \E g \in 1..Len(e.conc) : e.conc[g] # e.seq THEN V("gcs-concurrent-answers-differ", e.seq, "differs")
+                                ELSE OK
          [] OTHER -> V("unknown-op", e.op, e.op)
 
 InitG == TInit(0)
